@@ -37,7 +37,8 @@ func (DateTime) String() string {
 func (DateTime) Validate(value bytes.Bytes) {
 	str := value.Unquote().String()
 	_, err := time.Parse(time.RFC3339, str)
-	if err != nil {
+	// time.Parse reads an hour of one digit ("T7:23:12Z"); RFC 3339 has two.
+	if err != nil || len(str) < 14 || str[13] != ':' {
 		panic(errs.ErrInvalidDateTime.F())
 	}
 }
